@@ -72,67 +72,6 @@ theorem hashGrow_preserves {o : Ops K} {h : HMap K V} (hw : WF o h) (hold : h.ol
 
 /-! ## all histories -/
 
-inductive Op (K V : Type) where
-  | assign (k : K) (v : V)
-  | access (k : K)
-  | delete (k : K)
-  | clear
-  | len
-
-inductive Obs (V : Type) where
-  | done
-  | val (v : Option V)      -- `none`: zero value, ok = false
-  | len (n : Nat)
-  | panic                   -- "hash of unhashable type"
-
-/-- one operation on the table; a panic leaves the table as it was -/
-def stepModel (o : Ops K) (h : HMap K V) : Op K V → Except Err (Obs V × HMap K V)
-  | .assign k v =>
-    match mapassign o h k v with
-    | .ok h' => .ok (.done, h')
-    | .error .unhashable => .ok (.panic, h)
-    | .error e => .error e
-  | .access k =>
-    match mapaccess o h k with
-    | .ok (r, h') => .ok (.val (r.map (·.val)), h')
-    | .error .unhashable => .ok (.panic, h)
-    | .error e => .error e
-  | .delete k =>
-    match mapdelete o h k with
-    | .ok h' => .ok (.done, h')
-    | .error .unhashable => .ok (.panic, h)
-    | .error e => .error e
-  | .clear => .ok (.done, mapclear h)
-  | .len => .ok (.len h.count, h)
-
-def runModel (o : Ops K) : HMap K V → List (Op K V) → Except Err (List (Obs V) × HMap K V)
-  | h, [] => .ok ([], h)
-  | h, op :: ops =>
-    match stepModel o h op with
-    | .error e => .error e
-    | .ok (ob, h') =>
-      match runModel o h' ops with
-      | .error e => .error e
-      | .ok (obs, h'') => .ok (ob :: obs, h'')
-
-/-- the same operation on the specification -/
-def stepSpec (o : Ops K) (m : AList K V) : Op K V → Obs V × AList K V
-  | .assign k v => if o.unhashable k then (.panic, m) else (.done, insert o.eq o.needKeyUpdate k v m)
-  | .access k => if o.unhashable k then (.panic, m) else (.val (lookup o.eq k m), m)
-  | .delete k => if o.unhashable k then (.panic, m) else (.done, erase o.eq k m)
-  | .clear => (.done, [])
-  | .len => (.len (len m), m)
-
-def runSpec (o : Ops K) : AList K V → List (Op K V) → List (Obs V) × AList K V
-  | m, [] => ([], m)
-  | m, op :: ops =>
-    let (ob, m') := stepSpec o m op
-    let (obs, m'') := runSpec o m' ops
-    (ob :: obs, m'')
-
-/-- a key type whose hasher cannot panic has no unhashable keys (only interface-holding key types do) -/
-def PanicOK (o : Ops K) : Prop := o.hashMightPanic = false → ∀ k, o.unhashable k = false
-
 theorem step_refines {o : Ops K} (ho : HashOK o) (hp : PanicOK o) {h : HMap K V} (hi : Inv o h)
     {m : AList K V} (hm : (abs h).Perm m) (op : Op K V) :
     (∀ ob h', stepModel o h op = .ok (ob, h') →
@@ -275,5 +214,118 @@ theorem history_refines_from_make {o : Ops K} (ho : HashOK o) (hp : PanicOK o) (
     (∀ e, runModel o (makemap hint r : HMap K V) ops = .error e → e = .loop) := by
   obtain ⟨i, a⟩ := makemap_spec (V := V) o hint r
   exact history_refines ho hp ops _ [] i (by rw [a])
+
+
+/-! ## iteration (stage 5) -/
+
+/-- **Full statement of the iteration property** (stage 5): for every table that satisfies the invariant and
+    every range loop over it, with arbitrary mutations between the iteration steps —
+    nothing deleted is yielded, nothing is yielded twice, and (once the loop has ended) everything that was
+    present the whole time has been yielded. -/
+def IterationSpec (o : Ops K) (V : Type) [Inhabited V] : Prop :=
+  YieldsLive o V ∧ NoTwice o V ∧ YieldsAll o V
+
+/-- the part that is proved: a loop over a map that is empty when `MapIterNext` is called ends there
+    (`z_map.go` checks `count == 0` before `mapiternext` touches possibly cleared buckets) -/
+theorem iteration_partial_empty (o : Ops K) (h : HMap K V) (it : Iter K V) (hc : h.count = 0) :
+    mapIterNext o (.ref h) it = .ok (none, { it with key := none, elem := none }) := by
+  simp [mapIterNext, hc, pure, Except.pure]
+
+/-- … and a loop over a nil or empty map yields nothing at all -/
+theorem iteration_partial_empty_loop (o : Ops K) (h : HMap K V) (steps : List (LoopStep K V)) (hc : h.count = 0) :
+    ∃ tr, runLoop o h steps = .ok (tr, true) ∧ ∀ kv hy, LoopEv.yield kv hy ∉ tr := by
+  have h1 : newMapIter o (.ref h) = .ok ({ ready := true }, .ref h) := by
+    simp [newMapIter, mapiterinit, hc, pure, Except.pure, bind, Except.bind]
+  refine ⟨[.table h], ?_, ?_⟩
+  · simp [runLoop, h1, runLoopFrom, mapIterNext, pure, Except.pure]
+  · intro kv hy hm
+    simp at hm
+
+/-! ### the counterexample (keys: a number and a "is NaN" flag; NaN keys are equal to nothing) -/
+
+def cxOps : Ops (Nat × Bool) :=
+  { hash := fun _ k => UInt64.ofNat k.1
+    nanHash := fun _ k x => UInt64.ofNat k.1 + x.toUInt64
+    eq := fun a b => !a.2 && !b.2 && a.1 == b.1
+    unhashable := fun _ => false
+    reflexiveKey := false, needKeyUpdate := true, hashMightPanic := false }
+
+/-- `m := map[float64]int{1: 63}` -/
+def cxStart : Except Err (HMap (Nat × Bool) Nat) := mapassign cxOps (makemap 0 { script := [7, 0] }) (1, false) 63
+
+/-- `for k, v := range m { 8 insertions, one of them m[NaN] = 65 (the map grows); clear(m); m[9] = 151 }` -/
+def cxSteps : List (LoopStep (Nat × Bool) Nat) :=
+  [.mutate (.assign (2, false) 64), .mutate (.assign (0, true) 65), .mutate (.assign (3, false) 71),
+   .mutate (.assign (4, false) 72), .mutate (.assign (5, false) 132), .mutate (.assign (6, false) 133),
+   .mutate (.assign (7, false) 134), .mutate (.assign (8, false) 135), .mutate .clear,
+   .mutate (.assign (9, false) 151), .next]
+
+/-- does the run yield something that is not in the map at that moment? -/
+def cxCheck : Bool :=
+  match cxStart with
+  | .ok h =>
+    match runLoop cxOps h cxSteps with
+    | .ok (tr, _) => tr.any (fun ev => match ev with
+        | .yield kv hy => !(decide (kv ∈ abs hy))
+        | .table _ => false)
+    | .error _ => false
+  | .error _ => false
+
+theorem cxOps_hashOK : HashOK cxOps := by
+  refine ⟨⟨?_, ?_⟩, ?_⟩
+  · intro a b h
+    simp only [cxOps, Bool.and_eq_true, Bool.not_eq_true', beq_iff_eq] at h ⊢
+    exact ⟨⟨h.1.2, h.1.1⟩, h.2.symm⟩
+  · intro a b c h1 h2
+    simp only [cxOps, Bool.and_eq_true, Bool.not_eq_true', beq_iff_eq] at h1 h2 ⊢
+    exact ⟨⟨h1.1.1, h2.1.2⟩, h1.2.trans h2.2⟩
+  · intro s a b h
+    simp only [cxOps, Bool.and_eq_true, Bool.not_eq_true', beq_iff_eq] at h ⊢
+    rw [h.2]
+
+/-- the second iteration of the loop yields the NaN entry that `clear` deleted (evaluated by the kernel) -/
+theorem cx_check : cxCheck = true := by decide +kernel
+
+/-- **The iteration property is false for `map.go` as it is**: an iterator that walks a bucket array the map
+    has already retired returns its `key != key` cells directly ("the entry can't be deleted or updated"), but
+    `clear` does delete them.  The same history is replayed on the real code by `checks/c06.py`
+    (`corpus/C06/nan-entry-after-clear.json`). -/
+theorem iteration_counterexample : ¬ IterationSpec cxOps Nat := by
+  intro ⟨hYL, _, _⟩
+  have hc := cx_check
+  unfold cxCheck at hc
+  cases hs : cxStart with
+  | error e => rw [hs] at hc; cases hc
+  | ok h0 =>
+    rw [hs] at hc
+    simp only at hc
+    have hw : WF cxOps h0 :=
+      ((mapassign_spec cxOps_hashOK (makemap_spec cxOps 0 { script := [7, 0] }).1 (1, false) 63).1 h0 hs).1
+    cases hr : runLoop cxOps h0 cxSteps with
+    | error e => rw [hr] at hc; cases hc
+    | ok p =>
+      obtain ⟨tr, ended⟩ := p
+      rw [hr] at hc
+      simp only [List.any_eq_true] at hc
+      obtain ⟨ev, hev, hbad⟩ := hc
+      cases ev with
+      | table _ => cases hbad
+      | yield kv hy =>
+        have := hYL h0 cxSteps tr ended (Or.inl hw) hr kv hy hev
+        simp [this] at hbad
+
+/-! ## the hypotheses are satisfiable -/
+
+example : HashOK cxOps := cxOps_hashOK
+example : PanicOK cxOps := fun _ _ => rfl
+example : Inv cxOps (makemap 20 {} : HMap (Nat × Bool) Nat) := (makemap_spec cxOps 20 {}).1
+example : ∃ h : HMap (Nat × Bool) Nat, cxStart = .ok h ∧ WF cxOps h ∧ h.count = 1 := by
+  cases hs : cxStart with
+  | error e => have := cx_check; unfold cxCheck at this; rw [hs] at this; cases this
+  | ok h0 =>
+    have hp := (mapassign_spec cxOps_hashOK (makemap_spec cxOps 0 { script := [7, 0] }).1 (1, false) 63).1 h0 hs
+    refine ⟨h0, rfl, hp.1, ?_⟩
+    rw [hp.1.count, hp.2.length_eq, (makemap_spec cxOps 0 { script := [7, 0] }).2]
+    rfl
 
 end LlgoVerif.HMap
